@@ -38,6 +38,7 @@ var auxRequired = map[string][]string{
 func runC09(c *Ctx, r *Run) {
 	r.Rule("ENC-2", "the writers that bind session and party identity (ID, IDSlice, RID, Config, ...) are total on their type")
 	r.Rule("START-S3", "every start closure hands the caller's session identifier itself (its bytes) to round.NewSession")
+	r.Rule("FS-7", "the types written into the session tag hash every one of their (public) fields")
 	r.Rule("DEP-5", "tag completeness: every field of round.Info (bar the two tabled exceptions), the session id and every auxiliary item are written, error-checked, into the hash whose Sum() becomes the SSID")
 	r.Rule("START-S2", "key-material binding: CMP refresh/sign/presign/online pass config, message and presignature id to NewSession")
 	r.Rule("CONST-1", "protocol-id constants are distinct across protocol packages")
@@ -400,6 +401,8 @@ func runC09(c *Ctx, r *Run) {
 	r.Note("OB-S6: %d verifier-side and %d prover-side context uses", nV, nP)
 
 	checkWritersTotal(c, r, "ENC-2", writerImplementers(c))
+	checkWritersComplete(c, r, "FS-7", writerImplementers(c))
+	r.Require("FS-7", 20)
 	checkSessionIDForwarded(c, r, "START-S3")
 	r.Require("START-S3", 8)
 	r.Require("ENC-2", 15)
